@@ -93,7 +93,7 @@ fn main() {
         let mut ctx = Ctx { prop: prop.clone(), tier, seed, shard: s, nshards: n, stats: Stats::default(), known: KnownFindings::load() };
         if s == 0 {
             // replay tier: saved inputs of repaired / known findings (seconds long)
-            if let Ok(rd) = std::fs::read_dir(format!("{VERIF_DIR}/regress")) {
+            if let Ok(rd) = std::fs::read_dir(format!("{}/regress", home_dir())) {
                 let mut files: Vec<_> = rd.filter_map(|e| e.ok()).map(|e| e.path()).filter(|p| p.file_name().and_then(|n| n.to_str()).map_or(false, |n| n.starts_with(&format!("{prop}-")) && n.ends_with(".json"))).collect();
                 files.sort();
                 for f in files {
